@@ -179,3 +179,25 @@ def adjoint_identity_subs(o, k):
 def approximate_bound_leak(o, k):
     """a lazily built Approximate term exposes the alpha-renamed name of its approx_vars"""
     return str(o.get("label", "")).startswith("binder|approximate|")
+
+
+def adjoint_shared_binder_name(o, k):
+    """a variable name is reduced in a sub-expression and ALSO occurs outside that sub-expression (reduced again in a
+    sibling, or free): the tape un-mangles the bound copy to the one user name and mixes the messages"""
+    p = _prog_of(o)
+    if p is None:
+        return False
+
+    def leaves_with(e, name, acc):
+        for n in _nodes(e):
+            if n[0] == "leaf" and name in dict(n[2]):
+                acc.append(id(n))
+        return acc
+    for n in _nodes(p):
+        if n[0] == "reduce":
+            for name, _ in n[3]:
+                inside = len(leaves_with(n, name, []))
+                total = len(leaves_with(p, name, []))
+                if total > inside:
+                    return True
+    return False
